@@ -356,7 +356,7 @@ func genAsyncBase(rt *rapid.T, thorough bool) *AsyncScn {
 	case 0, 1:
 		s.Refs = []RefSpec{{Ref: "rec0"}}
 	case 2:
-		s.Refs = []RefSpec{{Ref: "rec0"}, {Ref: "rec1", Level: "WARN"}}
+		s.Refs = []RefSpec{{Ref: "rec0"}, {Ref: "rec1", Level: rapid.SampledFrom([]string{"WARN", "WARN", "NOTICE", "AUDIT", "VERBOSE"}).Draw(rt, "ref1_level")}}
 	case 3:
 		s.Refs = []RefSpec{{Ref: "rec0", Level: "ERROR"}, {Ref: "rec1"}, {Ref: "rec2", Level: "info"}}
 	}
